@@ -434,6 +434,51 @@ def natural_lockstep(i: int, proto: int) -> bool:
         return True
 
 
+def memo_gap_lockstep(k: int, m: int, form: int, pre: int) -> bool:
+    """
+    pre: 0 <= k <= 40 and 0 <= m <= 3 and 0 <= form <= 2 and 0 <= pre <= 2
+    post: _
+    """
+    # memo keys after explicit PUTs that leave a gap (or collide) followed by MEMOIZEs and GETs: `pre` MEMOIZEs,
+    # one PUT-family write to key k, `m` more MEMOIZEs, then a BINGET of every key the VM holds (seed C09-5)
+    k, m, form, pre = pin(k, 0, 40), pin(m, 0, 3), pin(form, 0, 2), pin(pre, 0, 2)
+    with native():
+        put = [b"q" + bytes([k]), b"r" + k.to_bytes(4, "little"), b"p" + str(k).encode() + b"\n"][form]
+        data = b"]" + b"K\x01\x940" * pre + put + b"K\x07\x940" * m
+        keys = sorted(set(range(pre)) | {k} | set(range(pre, pre + m)) | {pre + m, k + 1})
+        data += b"".join(b"h" + bytes([x]) + b"0" for x in keys if x in _vm_memo_keys(data)) + b"."
+        p = Pickled.load(data)
+        it = Interpreter(p)
+        log, stub = make_world()
+        vm = LoggingVM(io.BytesIO(data), log, stub).start()
+        for j in range(len(p)):
+            try:
+                vm.step()
+            except pickle._Stop:
+                break
+            except Exception:
+                return True
+            try:
+                it.step()
+            except Exception:
+                return True   # premise: both accept
+            if [isinstance(s, MarkObject) for s in it.stack] != vm.shape() or set(it.memory) != set(vm.memo):
+                return False
+        rt.reach()
+        return True
+
+
+def _vm_memo_keys(prefix):
+    log, stub = make_world()
+    vm = LoggingVM(io.BytesIO(prefix + b"."), log, stub).start()
+    while True:
+        try:
+            vm.step()
+        except pickle._Stop:
+            break
+    return set(vm.memo)
+
+
 def lemmas(tier):
     q = tier == "quick"
     W[0] = 3
@@ -461,4 +506,7 @@ def lemmas(tier):
                    doc={"F": ["%d programs" % len(TRACE_PROGS)], "bound": "listed programs; no symbolic dimension (state equality per step)"}))
     L.append(Lemma("natural_lockstep", natural_lockstep, timeout=120, dry=[{"i": 7, "proto": 2}],
                    doc={"F": ["12 objects x protocols 0-5, every prefix"], "bound": "listed objects; cross-check of the induction on whole programs"}))
+    L.append(Lemma("memo_gap_lockstep", memo_gap_lockstep, timeout=120, dry=[{"k": 5, "m": 1, "form": 0, "pre": 0}, {"k": 1, "m": 2, "form": 2, "pre": 1}],
+                   doc={"F": ["k: key written by BINPUT/LONG_BINPUT/PUT (0..40)", "pre, m: MEMOIZEs before (0..2) and after (0..3) it", "followed by a BINGET of every key the VM holds"],
+                        "bound": "one explicit write between MEMOIZEs; whole-program cross-check of step_MEMOIZE/step_*PUT on memos with gaps and collisions"}))
     return L
